@@ -30,7 +30,7 @@ def check(pid, level, text, note, technique, ref):
 
 CHECKS = {
  "C01": check("C01", "exploration",
-   "Seeded search over delivery schedules: every run partitions a seeded signal into chunks per live replica (adversarial cuts at/around turning points and inside plateaus, length-1 chunks, >=3 chunks), interleaves 1-4 live 3-point/4-point/FKM detector instances, and after every delivery compares the replica with a fresh one-piece replica of the consumed prefix and maps every reported global index back through the chunk bookkeeping to the sample actually delivered. Sampling, not proof; the right level because the space (signals x partitions x interleavings) is unbounded.",
+   "Seeded search over delivery schedules: every run partitions a seeded signal into chunks per live replica (adversarial cuts at/around turning points and inside plateaus, length-1 chunks, >=3 chunks, now and then thousands of tiny chunks or recordings beyond 2**16 samples), interleaves 1-4 live 3-point/4-point/FKM detector instances with four recorder kinds (incl. two user-written ones), delivers chunks in several containers and dtypes, overwrites the caller's buffer after the call in 30% of the runs, and after every delivery compares the replica with a fresh one-piece replica of the consumed prefix and maps every reported global index back through the chunk bookkeeping to the sample actually delivered. A canary scenario detects process-wide state left behind by a run. Sampling, not proof; the right level because the space (signals x partitions x interleavings) is unbounded.",
    "Trusted: the one-piece replica of the working tree as reference (its meaning is pinned independently by C02), float64 ndarray chunks. Minimised witnesses are replayed in a fresh interpreter under another PYTHONHASHSEED before being reported.",
    "deterministic simulation: seeded chunk-delivery scheduler over interleaved live detector replicas, prefix-refinement oracle against a single-copy reference, ddmin-minimised replay traces", "DESIGN.md 4.1"),
  "C02": check("C02", "exploration",
@@ -51,7 +51,7 @@ CHECKS = {
    "deterministic simulation: seeded pass histories over junction-configuration swarm with injected non-reversal samples, independent periodic-rainflow oracle, known-finding classifier", "DESIGN.md 4.4"),
  "C05": check("C05", "exploration",
    "Independent scalar implementation of the guideline HCM stepped over the reversals of [0]+s+s with the same law object through its scalar interface; every column of recorder.collective and the visited strain values (all/first/second run) must agree (K1); 1-5 proportional points in one batched replica must equal their solo replicas row by row, using the batch law's own look-up table per node (K2); the replica fed -s must mirror (K3).",
-   "Trusted: models/hcm_ref.py; the law's scalar interface. Benign junctions only (junctions are C04). Floats to 1e-9 of the quantity's scale.",
+   "Trusted: models/hcm_ref.py; the law's scalar interface. Benign junctions only for the two-pass modes (junctions are C04); mode K4 drives raw process(chunk) histories incl. checkpoints (deepcopy/pickle/fork) and compares batch, solo and reference. Floats to 1e-9 of the quantity's scale.",
    "deterministic simulation: reference-model oracle stepped pass by pass, lock-step solo replicas versus one batched replica, negated twin", "DESIGN.md 4.5"),
  "C13": check("C13", "exploration",
    "Histories of broadcasts over a pool of shared, aliased and re-entering pandas operands with a seeded uuid4 seam: after every step every pool object must be identical to its snapshot (values, index, level names incl. None, order, class), the returned pair must have identical index, every returned row must carry the original's value at the key restricted to the original's levels (NaN where absent) with no key lost or duplicated, and allowable-cycle calculations must equal the scalar formula.",
